@@ -66,6 +66,8 @@ def patch(
     std_targets = ["snowflake.connector.connect", "snowflake.connector.pandas_tools.write_pandas"]
 
     stack = contextlib.ExitStack()
+    # id of each mock -> the function it replaced
+    replaced = {}
 
     try:
         for im in std_targets + list([extra_targets] if isinstance(extra_targets, str) else extra_targets):
@@ -79,13 +81,16 @@ def patch(
             # if we imported the module above, it'll already be mocked because
             # it'll reference the standard targets which are mocked first
             if isinstance(fn, mock.MagicMock):
+                if id(fn) in replaced:
+                    # on exit point the module at the original, rather than leaving it with this patch's mock
+                    stack.callback(setattr, module, fn_name, replaced[id(fn)])
                 continue
 
             fake = fake_fns.get(fn)
             assert fake, f"Module var {im} is {fn} and not one of {fake_fns.keys()}"
 
             p = mock.patch(im, side_effect=fake)
-            stack.enter_context(p)
+            replaced[id(stack.enter_context(p))] = fn
 
         yield None
     finally:
